@@ -437,7 +437,7 @@ def load_known(prop):
     return res
 
 
-def finish(prop, tier, seed, started, coverage, mismatches, explains=None, assumptions=(), engine_name=None):
+def finish(prop, tier, seed, started, coverage, mismatches, explains=None, assumptions=(), engine_name=None, wipe_replays=True):
     """writes evidence + replay files, prints the verdict lines and exits"""
     known = load_known(prop)
     hits = {}
@@ -459,7 +459,8 @@ def finish(prop, tier, seed, started, coverage, mismatches, explains=None, assum
             violations.append(m)
     violations.sort(key=lambda m: (len(m.case.body), m.case.key))
     replay_dir = os.path.join(VERIF, "replays", prop)
-    shutil.rmtree(replay_dir, ignore_errors=True)
+    if wipe_replays:
+        shutil.rmtree(replay_dir, ignore_errors=True)
     lines = []
     per_kind = {}
     for m in violations:
